@@ -267,8 +267,10 @@ class ResourcePeriodicallyUnavailable(ResourceConstraint):
                         )
                     ]
 
-                    if self.start > 0:
-                        conds.append(end_task_i <= self.start)
+                    # the pattern is not active before its start (0 by default): in particular
+                    # it does not apply to the busy interval of a task that is not scheduled,
+                    # which lies in the past
+                    conds.append(end_task_i <= self.start)
                     if self.end is not None:
                         conds.append(start_task_i >= self.end)
 
